@@ -248,6 +248,14 @@ impl<'a, 'tcx> BodyCx<'a, 'tcx> {
                 let _ = write!(o, ",\"uneval\":{}", js(&key(tcx, uv.def)));
                 if let Some(p) = uv.promoted {
                     let _ = write!(o, ",\"promoted\":{}", p.as_u32());
+                } else if uv.args.is_empty() && matches!(ty.kind(), ty::Adt(..)) {
+                    // named constant of a scalar newtype (bit sets): evaluate it
+                    if let Ok(rustc_middle::mir::ConstValue::Scalar(sc)) = tcx.const_eval_poly(uv.def) {
+                        if let Ok(si) = sc.try_to_scalar_int() {
+                            let bits = si.to_bits(si.size());
+                            let _ = write!(o, ",\"scalar\":{}", js(&bits.to_string()));
+                        }
+                    }
                 }
             }
             _ => {}
